@@ -1,0 +1,8 @@
+//go:build !verif
+
+package engine
+
+import "github.com/hyperjumptech/grule-rule-engine/ast"
+
+// simKB is the identity unless built with the "verif" tag.
+func simKB(_ string, knowledge *ast.KnowledgeBase) *ast.KnowledgeBase { return knowledge }
